@@ -21,7 +21,7 @@ U = ("U",)
 MUTATORS = {"append", "extend", "insert", "remove", "clear", "sort", "reverse", "update", "setdefault", "discard",
             "popitem", "pop", "add", "appendleft", "popleft", "__setitem__", "__delitem__", "difference_update",
             "intersection_update", "symmetric_difference_update"}
-AMBIGUOUS = {"pop", "add", "remove", "update"}   # pure / different meaning on pandas & str receivers
+AMBIGUOUS = {"add"}   # set.add mutates; DataFrame/Series.add is pure. (pop/remove/update mutate every receiver kind that has them)
 FRESH_BUILTINS = {"str", "int", "float", "bool", "len", "repr", "format", "sum", "min", "max", "abs", "round", "any", "all",
                   "isinstance", "hasattr", "type", "id", "hash", "range", "enumerate", "zip", "map", "filter", "print",
                   "open", "iter", "next", "getattr", "callable", "ord", "chr", "frozenset", "bytes", "divmod"}
